@@ -15,6 +15,7 @@ HIST_SRC = ["histmon.c", "layoutmon.c", "refcodec.c", "dbh.c", "model.c", "vh.c"
 HARNESSES = {
     # name: (sources, wrap list)
     "histmon": (HIST_SRC, build.WRAP_IO),
+    "faultmon": (["faultmon.c", "dbh.c", "model.c", "vh.c", "iomon.c"], build.WRAP_IO),
     "dbtool": (["dbtool.c", "dbh.c", "model.c", "vh.c", "iomon.c"], build.WRAP_IO),
     "crashmon": (["crashmon.c", "refcodec.c", "dbh.c", "model.c", "vh.c", "iomon.c"], build.WRAP_IO),
 }
@@ -385,3 +386,49 @@ def c05(ctx):
         floors=dict(images=(agg.n("images"), 2000), followups=(agg.n("followups"), 300),
                     second_opens=(agg.n("second_opens"), 300), dbtmp=(agg.n("images_with_dbtmp"), 10)),
         assumptions=CRASH_ASSUME)
+
+
+# ---------------------------------------------------------------------------
+# C12: fault injection at the libc boundary
+
+HARNESS_FLAVOURS["faultmon"] = ("rel", "asan")
+
+
+@register("C12")
+def c12(ctx):
+    """I/O failures are reported and never cost acknowledged data (one fault rule per run, all sites)."""
+    if ctx.replay:
+        return do_replay(ctx)
+    jobs = []
+    if ctx.quick:
+        plan = [("rel", w, 2, 5) for w in range(6)] + [("asan", 20 + w, 4, 3) for w in range(1)]
+    else:
+        plan = [("rel", w, 2, 40) for w in range(48)] + [("asan", 100 + w, 4, 12) for w in range(16)]
+    for flavour, w, nshards, per_site in plan:
+        for k in range(nshards):
+            d = os.path.join(ctx.scratch, "f-%s-%d-%d" % (flavour, w, k))
+            jobs.append(hjob("faultmon", flavour,
+                             ["--seed", ctx.seed, "--workload", w, "--shard", k, "--nshards", nshards,
+                              "--max-per-site", per_site, "--dir", d], "w%d/%d" % (w, k), timeout=3000))
+    agg = Agg().add(runner.run_jobs(jobs))
+    extras = dict(workloads=agg.n("reference_runs") // 1, fault_sites_enumerated=agg.n("sites_enumerated"),
+                  cases=agg.n("cases"), cases_where_rule_fired=agg.n("cases_fired"),
+                  cases_open_failed_under_fault=agg.n("cases_open_failed_under_fault"),
+                  cases_reopen_failed_under_fault=agg.n("cases_reopen_failed_under_fault"),
+                  cases_failure_surfaced_in_write_status=agg.n("cases_failure_surfaced_in_write_status"),
+                  cases_latched_all_later_writes_fail=agg.n("cases_latched_all_later_writes_fail"),
+                  cases_with_acked_writes_after_the_fault=agg.n("cases_fired_with_later_acked_writes"),
+                  writes_ok=agg.n("writes_ok"), writes_failed=agg.n("writes_failed"),
+                  reads_checked=agg.n("reads_ok"), reads_returning_error_status=agg.n("reads_error_status"))
+    return runner.finish(
+        "C12", "fault_enumeration", ctx.tier, ctx.seed, ctx.t0, agg,
+        rule="reference run counts occurrences per (libc call class, file class); sites (call, file class, n-th occurrence: "
+             "first 3, last 4, stride in between) x {one-shot, persistent} x errno {ENOSPC, EIO, EMFILE/ENOENT for opens} x "
+             "{clean failure, short write}; the same workload runs with the rule armed (incl. a reopen under the fault); "
+             "then the fault is cleared and both close+reopen and a kill image must hold every batch that returned OK, "
+             "whole batches only; non-trivial = rule fired; distinct = (call, file class, phase, mode, surfaced?) tuples",
+        evaluations=agg.n("cases"), distinct_nontrivial=agg.d("c12_site"), extras=extras,
+        floors=dict(cases_fired=(agg.n("cases_fired"), 500), later_acked=(agg.n("cases_fired_with_later_acked_writes"), 100),
+                    distinct_sites=(agg.d("c12_site"), 40)),
+        assumptions=["faults are injected at the libc boundary of this build (open/write/fsync/rename/unlink/close/mkdir/"
+                     "read/lseek/mmap/opendir); one rule per run", "single foreground writer"])
